@@ -5,6 +5,8 @@ package sftp
 import (
 	"encoding"
 	"io"
+	"os"
+	"time"
 )
 
 // ---- harness-side helpers shared by several properties ----
@@ -80,4 +82,34 @@ func vUnwire(b []byte) (requestPacket, error) {
 }
 
 
+// model FileInfo values (three flavours: plain, with Uid/Gid, with Stat_t, with extended data)
+type vFI struct {
+	name  string
+	size  int64
+	mode  os.FileMode
+	mtime time.Time
+	sys   any
+}
+
+func (f *vFI) Name() string       { return f.name }
+func (f *vFI) Size() int64        { return f.size }
+func (f *vFI) Mode() os.FileMode  { return f.mode }
+func (f *vFI) ModTime() time.Time { return f.mtime }
+func (f *vFI) IsDir() bool        { return f.mode.IsDir() }
+func (f *vFI) Sys() any           { return f.sys }
+
+type vFIUidGid struct {
+	vFI
+	uid, gid uint32
+}
+
+func (f *vFIUidGid) Uid() uint32 { return f.uid }
+func (f *vFIUidGid) Gid() uint32 { return f.gid }
+
+type vFIExt struct {
+	vFIUidGid
+	ext []StatExtended
+}
+
+func (f *vFIExt) Extended() []StatExtended { return f.ext }
 
